@@ -10,7 +10,7 @@
 //       lists site_packages_paths / editable_install_roots in list order.
 //   L2  prelude/modres_l2.rs: lemma_C14_* (closed form for ordinary dotted names, relative imports stay below their
 //       anchor directory and have no fallback, `from . import x` / `from .x import *` resolve next to the importing file,
-//       module file BEFORE package (FINDING: Python prefers the package), the upward walk ignores the workspace root
+//       PACKAGE before module file (Python's order; F-14f repaired in /repo 6de68a0), the upward walk ignores the workspace root
 //       and sys.path (FINDING), search order, namespace packages, empty segments / empty module text, absolute plugin
 //       strings), canaries.
 //   C11 `parts.len() - 1` (usize), `lock().unwrap()`, every `?`; C12: the two loops of the upward walk carry
@@ -87,17 +87,17 @@ impl FixtureDatabase {
         assert(ps.len() == parts@.len());
     }
 @return 1
-    assert(pbv(&py_file) == cand_py(cur0, ps[i0]));
-    assert(op_find_parts(ps, i0, cur0, dom) == Some(pbv(&py_file)));
+    assert(pbv(&package_init) == cand_init(cur0, ps[i0]));
+    assert(op_find_parts(ps, i0, cur0, dom) == Some(pbv(&package_init)));
 @return 2
+    assert(pbv(&package_init) == cand_init(cur0, ps[i0]));
+    assert(op_find_parts(ps, i0, cur0, dom) == Some(pbv(&package_init)));
+@return 3
     assert(pbv(&py_file) == cand_py(cur0, ps[i0]));
     assert(op_find_parts(ps, i0, cur0, dom) == Some(pbv(&py_file)));
-@return 3
-    assert(pbv(&package_init) == cand_init(cur0, ps[i0]));
-    assert(op_find_parts(ps, i0, cur0, dom) == Some(pbv(&package_init)));
 @return 4
-    assert(pbv(&package_init) == cand_init(cur0, ps[i0]));
-    assert(op_find_parts(ps, i0, cur0, dom) == Some(pbv(&package_init)));
+    assert(pbv(&py_file) == cand_py(cur0, ps[i0]));
+    assert(op_find_parts(ps, i0, cur0, dom) == Some(pbv(&py_file)));
 @return 5
     assert(pbv(&current_path) == pv_join(cur0, text_pv(ps[i0])));
     assert(op_find_parts(ps, i0, cur0, dom) is None);
